@@ -209,6 +209,10 @@ fn rewrites(spec: &CmdSpec, argv: &[Vec<u8>]) -> Vec<(String, Vec<Vec<u8>>)> {
             let last_only = spec.args.iter().any(|a| a.last);
             if all_after && !last_only {
                 out.push(("insert -- before positionals".into(), splice(*first, 0, vec![b"--".to_vec()])));
+                // ... and between them: the escape does not end a multi-value positional's occurrence
+                for k in *first + 1..argv.len() {
+                    out.push(("insert -- between positionals".into(), splice(k, 0, vec![b"--".to_vec()])));
+                }
             }
         }
     }
@@ -305,6 +309,23 @@ fn ambiguity_specs() -> Vec<(String, CmdSpec)> {
     s.visible_aliases.push("helper".into());
     c.subs.push(s);
     v.push(("longs verify/hello vs generated version/help; sub hex alias helper vs generated help".to_string(), c));
+    // aliases that are prefixes of their own command's name and of its siblings' names: typed in
+    // full they are exact matches, not ambiguous prefixes
+    let mut c = CmdSpec::new("prog");
+    c.set(Setting::InferLongArgs);
+    c.set(Setting::InferSubcommands);
+    let mut inst = CmdSpec::new("install");
+    inst.aliases.push("i".into());
+    inst.visible_aliases.push("in".into());
+    c.subs.push(inst);
+    c.subs.push(CmdSpec::new("info"));
+    c.subs.push(CmdSpec::new("init"));
+    let mut o = ArgSpec::opt("output", None, Some("output"));
+    o.aliases.push("o".into());
+    o.aliases.push("out".into());
+    c.args.push(o);
+    c.args.push(ArgSpec::flag("outline", None, Some("outline")));
+    v.push(("sub install (aliases i, in) next to info/init; long output (aliases o, out) next to outline".to_string(), c));
     v
 }
 
